@@ -188,40 +188,34 @@ def ob_rms_nested(W, n):
 
 
 def ob_get_rms(W, reversed_band):
-    """SpectrumResult.get_rms passes (f, asd, band) to integral_rms, reordering a reversed band"""
-    b = R.bin_inputs(W, "0", cross=False, pos=True); b2 = R.bin_inputs(W, "1", cross=False, pos=True)
+    """SpectrumResult.get_rms(band) is the band RMS of its own ASD (reversed band edges are reordered); value-based:
+    any implementation that returns the trapezoidal integral of psd over the in-band grid points passes"""
+    bins = [R.bin_inputs(W, str(j), cross=False, pos=True) for j in range(3)]
     fs = W.real("fs"); p, q = W.real("p"), W.real("q")
+    fv = [b["f"] for b in bins]
     if W.sym:
-        W.assume(fs > 0); W.assume(b["f"] < b2["f"]); W.assume(p < q)
-    elif not (fs > 0 and b["f"] < b2["f"] and p < q):
+        W.assume(fs > 0); W.assume(fv[0] < fv[1]); W.assume(fv[1] < fv[2]); W.assume(p <= q)
+    elif not (fs > 0 and fv[0] < fv[1] < fv[2] and p <= q):
         return
-    r = R.mk(W, [b, b2], False, fs)
-    calls = []
-
-    def rec(ff, asd, band=None):
-        calls.append((ff, asd, band))
-        return 1.25
-    import speckit.analysis as A
+    r = R.mk(W, bins, False, fs)
     band = (q, p) if reversed_band else (p, q)
+    import speckit.analysis as A, speckit.dsp as D
     if W.sym:
-        f = clone(A.SpectrumResult.get_rms, np=NumpyShim(), integral_rms=rec)
-        W.run.concrete_masks = False
+        W.run.concrete_masks = True
+        GD = clone_module(D, dict(np=NumpyShim()))
+        f = clone(A.SpectrumResult.get_rms, np=NumpyShim(), integral_rms=GD["integral_rms"])
         out = f(r, band)
     else:
-        old = A.integral_rms
-        A.integral_rms = rec
-        try:
-            out = r.get_rms(band)
-        finally:
-            A.integral_rms = old
-    W.goal("one call", len(calls) == 1)
-    if len(calls) != 1:
-        return
-    ff, asd, bnd = calls[0]
-    W.goal("returns the integral", out == 1.25)
-    W.goal("frequencies", W.And(W.eq(ff[0], b["f"]), W.eq(ff[1], b2["f"])))
-    W.goal("asd", W.And(W.eq(asd[0] * asd[0], R.el(r.psd, 0)), W.eq(asd[1] * asd[1], R.el(r.psd, 1))))
-    W.goal("band ordered", W.And(W.eq(bnd[0], p), W.eq(bnd[1], q)))
+        out = r.get_rms(band)
+    psd = [R.el(r.psd, i) for i in range(3)]
+    inside = [bool(W.And(W.ge(fv[i], p), W.le(fv[i], q))) if W.sym else (p <= fv[i] <= q) for i in range(3)]
+    ref = 0
+    for i in range(2):
+        if inside[i] and inside[i + 1]:
+            ref = ref + (psd[i] + psd[i + 1]) * (fv[i + 1] - fv[i]) / 2
+    W.goal("get_rms^2 = trapezoid of psd over the in-band points", W.eq(out * out, ref), inside=inside)
+    full = r.get_rms(None) if not W.sym else clone(A.SpectrumResult.get_rms, np=NumpyShim(), integral_rms=GD["integral_rms"])(r, None)
+    W.goal("get_rms(None) = full band", W.eq(full * full, sum((psd[i] + psd[i + 1]) * (fv[i + 1] - fv[i]) / 2 for i in range(2))))
 
 
 def obligations(tier):
@@ -244,5 +238,5 @@ def obligations(tier):
     for n in ((3, 4) if tier == "quick" else (3, 4, 5)):
         obs.append({"name": "rms/nested/n%d" % n, "fn": "ob_rms_nested", "params": {"n": n}, "fork": True, "max_paths": 6000, "weight": 40})
     for rv_ in (False, True):
-        obs.append({"name": "get_rms/%s" % ("reversed" if rv_ else "ordered"), "fn": "ob_get_rms", "params": {"reversed_band": rv_}, "fork": True, "max_paths": 20})
+        obs.append({"name": "get_rms/%s" % ("reversed" if rv_ else "ordered"), "fn": "ob_get_rms", "params": {"reversed_band": rv_}, "fork": True, "max_paths": 400})
     return obs
